@@ -62,6 +62,7 @@ def run(ctx: Ctx) -> None:
     else:
         FRAMES, cases = matlib.run_enumeration(ctx, "c02", 3, "all", ["UnreducedLayout", "InterceptOnes", "ScaleOnce"], slice_mod=4)
     res = pmap("harness.props.c02", "replay_case", cases, chunk=100)
+    ctx.require("replay: cases the model builds (neither failing nor empty)", sum(1 for c in cases if not (c["fails"] or c["empty"])), 1000)
     for c, bad in zip(cases, res):
         if c["fails"] or c["empty"]:
             continue
